@@ -147,6 +147,19 @@ func (r *Report) Violate(key, what string, cs any, detail any) {
 	r.Violations = append(r.Violations, Violation{Key: key, What: what, Case: cs, Detail: detail})
 }
 
+// ViolationCount returns the number of violations recorded so far (all keys).
+func (r *Report) ViolationCount() int {
+	r.mu.Lock()
+	defer r.mu.Unlock()
+	n := 0
+	for k, v := range r.counters {
+		if len(k) > 10 && k[:10] == "violation:" {
+			n += v
+		}
+	}
+	return n
+}
+
 func (r *Report) Inconcl(what string) {
 	r.mu.Lock()
 	if len(r.Inconclusive) < 50 {
